@@ -68,6 +68,7 @@ type RunParams struct {
 	Hold       bool   `json:"hold"`
 	FailOpen   bool   `json:"failopen"`
 	FailClose  bool   `json:"failclose"`
+	FailMaint  bool   `json:"failmaint"`
 	WalStates  bool   `json:"walstates"`
 }
 
